@@ -6,8 +6,9 @@ code that inspects raw input *before* cleaning, no operation can raise
 AttributeError / KeyError / IndexError on the shape the value may have (shape
 analysis, sa/kinds.py); optional properties are not dereferenced without a
 presence test in the constraint checks; registries and stores are written only
-after every refusal (check-then-commit).  Termination / RecursionError on deep
-input and exceptions inside third-party packages are not decided.
+after every refusal (check-then-commit).  Calls into third-party packages that parse input text are
+guarded; attributes read from registry classes exist on every registrable class.
+Termination / RecursionError on deep input is not decided.
 """
 import ast
 
@@ -38,6 +39,8 @@ def run(ctx):
     rule_raw_deref(ctx)
     rule_optional_subscript(ctx)
     rule_commit_last(ctx)
+    rule_registry_class_attr(ctx)
+    rule_input_parsers_guarded(ctx)
 
 
 def rule_wrapper(ctx):
@@ -355,3 +358,97 @@ def rule_commit_last(ctx):
               "the store can be written before the object was parsed/validated (a failed addition leaves the store changed)",
               file=ad.module.relpath, line=ad.node.lineno, function=ad.qualname, expected="parse(...) then store._data[...] = ...",
               found=[n.lineno for n in writes])
+
+
+def rule_registry_class_attr(ctx):
+    """A class taken from the registry by a name found in the INPUT can be any registered class of that category.  An
+    attribute read from it must exist on every such class (defined by the common base or by every builder), or be read
+    with getattr(..., default) / under hasattr: `extensions: {"archive-ext": {"extension_type":
+    "toplevel-property-extension"}}` selects a class without _toplevel_properties."""
+    run = ctx.run
+    prog = ctx.prog
+    R = "C17.registry-class-attr"
+    sbase = prog.cls("stix2.base::_STIXBase")
+    n = 0
+    for fi in sorted(prog.functions.values(), key=lambda f: f.id):
+        if fi.module.relpath.startswith("stix2/test") or fi.module.name.startswith("stix2.workbench"):
+            continue
+        # pre-clean code only: cleaners run under the generic wrapper, versioning is not a parse/construct entry point
+        in_zone = fi.module.name == "stix2.parsing" or (fi.cls is not None and sbase in fi.cls.mro and fi.name == "__init__")
+        if not in_zone:
+            continue
+        names = {}
+        for a in body_walk(fi.node):
+            if isinstance(a, ast.Assign) and len(a.targets) == 1 and isinstance(a.targets[0], ast.Name):
+                calls = [c for c in ast.walk(a.value) if isinstance(c, ast.Call) and call_simple_name(c) == "class_for_type"]
+                if calls:
+                    names[a.targets[0].id] = a
+        if not names:
+            continue
+        for x in body_walk(fi.node):
+            if isinstance(x, ast.Call) and call_simple_name(x) == "getattr" and len(x.args) == 3 and isinstance(x.args[0], ast.Name) \
+                    and x.args[0].id in names and isinstance(x.args[1], ast.Constant):
+                n += 1
+                run.ok(R, key(fi.module.relpath, fi.qualname, "%s.%s" % (x.args[0].id, x.args[1].value)), "read with a default")
+                continue
+            if isinstance(x, ast.Call) and call_simple_name(x) == "getattr" and len(x.args) == 2 and isinstance(x.args[0], ast.Name) \
+                    and x.args[0].id in names and isinstance(x.args[1], ast.Constant):
+                x = ast.copy_location(ast.Attribute(value=x.args[0], attr=x.args[1].value, ctx=ast.Load()), x)
+                x.parent = None
+            if not (isinstance(x, ast.Attribute) and isinstance(x.ctx, ast.Load) and isinstance(x.value, ast.Name) and x.value.id in names):
+                continue
+            n += 1
+            attr = x.attr
+            defined = prog.class_attr(sbase, attr) is not None
+            if not defined:
+                # defined by every concrete registrable class?  (class bodies of the version packages and the builders)
+                concrete = [k for k in prog.classes.values() if sbase in k.mro and k is not sbase and "_type" in k.scope.bindings]
+                defined = bool(concrete) and all(prog.class_attr(k, attr) is not None and not any(
+                    b.scope is k.scope and guard_chain(b.node) for b in k.scope.bindings.get(attr, []) if hasattr(b, "node") and b.node is not None)
+                    for k in concrete)
+            guarded = any(pol and "hasattr(%s, '%s')" % (x.value.id, attr) in norm(t) for t, pol, _ in guard_chain(x))
+            run.check(defined or guarded, R, key(fi.module.relpath, fi.qualname, "%s.%s" % (x.value.id, attr)),
+                      "AttributeError can escape: `%s` is read from a class looked up in the registry by a name taken from the "
+                      "input, but not every registrable class has that attribute (only toplevel-property extensions built by "
+                      "the custom builder do)" % norm(x), file=fi.module.relpath, line=x.lineno, function=fi.qualname,
+                      expected="getattr(%s, '%s', <default>) or a hasattr test" % (x.value.id, attr), found=norm(x))
+    run.extra["registry_class_attribute_reads"] = n
+    if n < 1:
+        raise AnalysisError("no attribute read from a registry class found in the pre-clean code")
+
+
+# packages that parse arbitrary input TEXT; their internal failures are not part of the library's error family
+INPUT_PARSERS = ("stix2patterns",)
+
+
+def rule_input_parsers_guarded(ctx):
+    """Object constraints run outside the generic exception wrapper of _check_property.  A call from there into a
+    third-party package that parses input text must sit in a try that converts whatever escapes."""
+    from ..astutil import in_try_catching
+    from ..loader import External
+    run = ctx.run
+    prog = ctx.prog
+    R = "C17.input-parsers-guarded"
+    sbase = prog.cls("stix2.base::_STIXBase")
+    n = 0
+    for fi in sorted(prog.functions.values(), key=lambda f: f.id):
+        if fi.cls is None or sbase not in fi.cls.mro or fi.name not in ("_check_object_constraints", "__init__"):
+            continue
+        for c in body_walk(fi.node):
+            if not (isinstance(c, ast.Call) and isinstance(c.func, (ast.Name, ast.Attribute))):
+                continue
+            d = prog.deref(prog.resolve_expr(prog.enclosing_scope(c), c.func))
+            if not isinstance(d, External) or d.dotted.split(".")[0] not in INPUT_PARSERS:
+                continue
+            n += 1
+            tr = in_try_catching(c)
+            converts = tr is not None and all(
+                any(isinstance(s_, ast.Raise) and s_.exc is not None for s_ in ast.walk(h)) or not any(isinstance(s_, ast.Raise) for s_ in ast.walk(h))
+                for h in tr.handlers)
+            run.check(tr is not None and converts, R, key(fi.module.relpath, fi.qualname, "guarded:%s" % d.dotted),
+                      "%s() is called on input text outside any try: an internal failure of that package (e.g. UnboundLocalError "
+                      "for the empty pattern) escapes construction and parse() raw" % d.dotted, file=fi.module.relpath,
+                      line=c.lineno, function=fi.qualname, expected="try: ... except Exception: -> InvalidValueError",
+                      found=short(c))
+    if n < 2:
+        raise AnalysisError("fewer than 2 calls into input-parsing packages found in constraint methods (%d)" % n)
